@@ -23,6 +23,7 @@ import Fir.Props.C09
 import Fir.Props.C11
 import Fir.Proofs.BoundsLemmas
 import Fir.Proofs.IdealFilterLemmas
+import Fir.Proofs.GeomLemmas
 
 namespace Fir.C03
 open Fir Fir.Bounds Fir.Gen
@@ -79,6 +80,30 @@ theorem precision_ge_one (next : Nat → Int) (limit : Int) (bits : Nat) (hb : 2
 theorem precision_in_arms (p : Nat) (h1 : 1 ≤ p) (h2 : p < PRECISION_BITS) :
     p ∈ constify_arms ∧ p ∉ constify_noop_arms ∧ p ≤ constify_mask :=
   Fir.Proofs.precision_in_arms p h1 h2
+
+/-! ### the clamped window under an arbitrary monotone, integer-exact rounding `fl` -/
+
+/-- `x_min ≤ x_max` - the hypothesis `window_in_source` starts from - whenever the radius is non-negative
+    and the (computed) window starts inside the image; `bound_end - bound_start` then cannot underflow -/
+theorem xmin_le_xmax (fl : ℚ → ℚ) (hfl : Monotone fl) (hint : ∀ n : ℤ, fl n = n) (c r : ℚ) (inSize : ℕ)
+    (hr : 0 ≤ r) (hin : c - r ≤ inSize) :
+    Fir.Proofs.xMinOf fl c r ≤ Fir.Proofs.xMaxOf fl c r inSize ∧ Fir.Proofs.xMaxOf fl c r inSize ≤ inSize :=
+  ⟨Fir.Proofs.xmin_le_xmax fl hfl hint c r inSize hr hin, min_le_right _ _⟩
+
+/-- every window fits into the `window_size = min(2⌈r⌉ + 1, in_size)` slots reserved for it (the clamp to
+    `in_size` is the repair for huge supports): `coeffs.resize(cur_index + window_size)` never truncates -/
+theorem span_le_window (fl : ℚ → ℚ) (hfl : Monotone fl) (hint : ∀ n : ℤ, fl n = n) (c r : ℚ) (inSize : ℕ) (hr : 0 ≤ r) :
+    Fir.Proofs.xMaxOf fl c r inSize - Fir.Proofs.xMinOf fl c r ≤ Fir.Proofs.windowSizeOf r inSize :=
+  Fir.Proofs.span_le_window fl hfl hint c r inSize hr
+
+/-- the reserved slots never exceed the image size, whatever the support (no overflow, no giant allocation) -/
+theorem window_size_le_in_size (r : ℚ) (inSize : ℕ) : Fir.Proofs.windowSizeOf r inSize ≤ inSize := min_le_right _ _
+
+example : Fir.Proofs.xMinOf id (7 / 2) (3 / 2) = 2 ∧ Fir.Proofs.xMaxOf id (7 / 2) (3 / 2) 4 = 4 ∧ Fir.Proofs.windowSizeOf (3 / 2) 4 = 4 := by
+  have h1 : ⌊((7 : ℚ) / 2 - 3 / 2)⌋ = 2 := by norm_num [Int.floor_eq_iff]
+  have h2 : ⌈((7 : ℚ) / 2 + 3 / 2)⌉ = 5 := by norm_num [Int.ceil_eq_iff]
+  have h3 : ⌈((3 : ℚ) / 2)⌉ = 2 := by norm_num [Int.ceil_eq_iff]
+  simp [Fir.Proofs.xMinOf, Fir.Proofs.xMaxOf, Fir.Proofs.windowSizeOf, h1, h2, h3]
 
 /-! ### non-vacuity -/
 example : Bounds.window (fun x => x < 3 || x ≥ 7) 1 9 = (3, 4, 6) := by decide
